@@ -47,6 +47,9 @@ def bounded_placement(tier, seed):
     names = [b"Setup.Exe", b"kernel32.dll", b"helper.dLL", b"tool.EXE", b"a_b1.exe"]
     kinds += [("executable.filename", nm, nm) for nm in names]
     kinds += [("path", b"/usr/local/bin.d", b"/usr/local/bin.d"), ("path", b"./abc/defg/hij.txt", b"./abc/defg/hij.txt"),
+              # the documented shape lets the last component be any three or more word characters or dots: hidden files, dotted names
+              ("path", b"/home/user/.bashrc", b"/home/user/.bashrc"), ("path", b"../repo/.git", b"../repo/.git"), ("path", b"./project/.env", b"./project/.env"),
+              ("path", b"/var/log/a.b", b"/var/log/a.b"),
               ("windows.path", rb"c:\temp\test-file.txt", rb"c:\temp\test-file.txt"), ("windows.unc.path", rb"\\server1\share\dir\file.txt", rb"\\server1\share\dir\file.txt"),
               ("vba.function.createobject", b"CreateObject(a(b)c)", b"CreateObject(a(b)c)"), ("vba.function.createobject", b"createobject((x)(y))", b"createobject((x)(y))")]
     pe = fuzz.mkpe(0x200, 0x200, 0x400)
